@@ -75,6 +75,9 @@ def poison(m, n, heap):
         del bufs
 
 
+BUFFERS = {}
+
+
 def main():
     journal = open(os.environ['C04_JOURNAL'], 'a') if os.environ.get('C04_JOURNAL') else None
     out = sys.stdout
@@ -94,6 +97,13 @@ def main():
         for ci, call in enumerate(req['calls']):
             Y = np.asarray(call['Y'], dtype=np.int32)
             X = np.asarray(call['X'], dtype=np.int32)
+            if call.get('buf'):
+                # the caller keeps ONE target buffer per name and refills it in place for every batch (same address, new contents)
+                key = (call['buf'], len(X))
+                if key not in BUFFERS:
+                    BUFFERS[key] = np.empty(len(X), dtype=np.int32)
+                BUFFERS[key][:] = X
+                X = BUFFERS[key]
             r = np.float32(call['r'])
             n = len(X)
             m = int(float(r) * n)
